@@ -24,7 +24,7 @@ ASSUMPTIONS = [
     "reads delivered between transport.close() and connection_lost model several TLS records in one TCP segment (PyOpenSSL pump) / FLUSHING state (asyncio SSL)",
 ]
 
-MODES = ["burst", "settle", "gated", "mw-gated"]
+MODES = ["burst", "settle", "gated", "mw-gated", "slow-gated"]
 
 
 def split_at(data: bytes, cuts) -> list[bytes]:
@@ -48,7 +48,7 @@ def _run(data: bytes, cuts, mode: str, uploads: bool = True):
 
     async def scenario(loop):
         sim = srvsim.Sim(loop)
-        gated = mode == "gated"
+        gated = mode in ("gated", "slow-gated")
         handler = srvsim.build_handler(sim, {"kind": "async-value" if gated else "value", "status": 20,
                                              "meta": "text/gemini", "body": "BODY", "gate": gated})
         up = srvsim.build_upload(sim, {"kind": "value", "status": 20, "meta": "text/gemini", "body": "STORED",
@@ -59,9 +59,14 @@ def _run(data: bytes, cuts, mode: str, uploads: bool = True):
         tr.attach(proto)
         for ch in chunks:
             tr.feed(ch)
-            if mode != "burst":
+            if mode not in ("burst", "slow-gated"):
                 await vloop.settle(3)
         await vloop.settle(4)
+        import asyncio
+
+        if mode == "slow-gated":
+            # the handler takes longer than the request timeout
+            await asyncio.sleep(45)
         sim.release_all()
         await vloop.settle(6)
         import asyncio
